@@ -306,6 +306,10 @@ pub fn shared_state_scan() -> Vec<String> {
 pub fn replay(case: &Value) -> Result<String, String> {
     match case["kind"].as_str().unwrap() {
         "fronts" => run_fronts(&kvs_from(&case["kvs"]), &[(1, 1), (2, 2), (3, 3)]).map(|n| format!("{} builds byte-identical", n)),
+        "fronts-corpus" => {
+            let kvs = corpus_sample(case["name"].as_str().unwrap(), case["take"].as_u64().unwrap() as usize, case["set"].as_bool().unwrap())?;
+            run_fronts(&kvs, &[]).map(|n| format!("{} builds byte-identical", n))
+        }
         "interleave" => {
             let all = jobs_list();
             let jobs: Vec<Job> = case["jobs"].as_array().unwrap().iter().map(|i| all[i.as_u64().unwrap() as usize].clone()).collect();
@@ -315,14 +319,29 @@ pub fn replay(case: &Value) -> Result<String, String> {
     }
 }
 
+/// A sample of a shipped corpus: every (len/take)-th key of the sorted corpus.
+pub fn corpus_sample(name: &str, take: usize, set: bool) -> Result<Vec<Kv>, String> {
+    let data = std::fs::read(format!("/repo/data/{}", name)).map_err(|e| format!("machinery: {}", e))?;
+    let mut keys: Vec<Key> = data.split(|&b| b == b'\n').filter(|l| !l.is_empty()).map(|l| l.to_vec()).collect();
+    keys.sort();
+    keys.dedup();
+    let step = (keys.len() / take).max(1);
+    let keys: Vec<Key> = keys.into_iter().step_by(step).collect();
+    Ok(if set { Pat::Zero.apply(&keys) } else { Pat::Idx.apply(&keys) })
+}
+
 fn do_fronts(kvs: &[Kv], geoms: &[Geom], st: &mut Stats, rep: &Reporter) {
+    do_fronts_case(kvs, geoms, json!({"kind": "fronts", "kvs": if kvs.len() <= 300 { kvs_json(kvs) } else { json!([]) }}), st, rep)
+}
+
+fn do_fronts_case(kvs: &[Kv], geoms: &[Geom], case: Value, st: &mut Stats, rep: &Reporter) {
     st.states += 1;
     match run_fronts(kvs, geoms) {
         Ok(n) => {
             st.evals += n;
             st.transitions += n * (kvs.len() as u64 + 2);
         }
-        Err(msg) => rep.violation(format!("fronts {}", if kvs.len() < 10 { kvs_str(kvs) } else { format!("{} keys", kvs.len()) }), msg, json!({"kind": "fronts", "kvs": kvs_json(kvs)})),
+        Err(msg) => rep.violation(format!("fronts {}", if kvs.len() < 10 { kvs_str(kvs) } else { format!("{} keys", kvs.len()) }), msg, case),
     }
 }
 
@@ -340,7 +359,7 @@ pub fn plan(tier: Tier) -> Plan {
     let mut p = Plan::new("C15", "model_checking");
     let thorough = tier.thorough();
     let scan = shared_state_scan();
-    p.rule = "(1) for every accepted sequence of the scope (subsets of U_ab3 with <= 4 keys quick / all thorough, x value patterns; fan-out families) the bytes through all 17 front ends, Builder::memory, a BufWriter, a 3-bytes-per-call sink and Map::from_iter are identical, and the raw front ends agree under the tiny cache geometries 1x1, 2x2, 3x3 (where evictions make the bytes depend on cache behaviour), also when repeated; (2) EVERY call-level interleaving (multiset permutations of the API calls new/insert.../finish) of every ordered pair (thorough: also triples of shorter jobs) of 6 builder jobs of different kinds and geometries driven from one thread: each builder must produce the bytes of its solo run; (3) the whole-scope digest computed on 8 free-running OS threads and in 4 child processes (std RandomState differs per process) must be equal - a repetition over an uncontrolled seed, reported as such. non-trivial = interleavings with at least one context switch".into();
+    p.rule = "(1) for every accepted sequence of the scope (subsets of U_ab3 with <= 4 keys quick / all thorough, x value patterns; fan-out families) the bytes through all 17 front ends, Builder::memory, a BufWriter, a 3-bytes-per-call sink and Map::from_iter are identical, and the raw front ends agree under the tiny cache geometries 1x1, 2x2, 3x3 (where evictions make the bytes depend on cache behaviour), also when repeated; the same for samples of the shipped corpora (400..10000 keys), where the DEFAULT cache is under pressure; (2) EVERY call-level interleaving (multiset permutations of the API calls new/insert.../finish) of every ordered pair (thorough: also triples of shorter jobs) of 6 builder jobs of different kinds and geometries driven from one thread: each builder must produce the bytes of its solo run; (3) the whole-scope digest computed on 8 free-running OS threads and in 4 child processes (std RandomState differs per process) must be equal - a repetition over an uncontrolled seed, reported as such. non-trivial = interleavings with at least one context switch".into();
     p.assumptions = vec![
         format!("the library has no synchronisation operation and no shared mutable state, so thread interleavings are one Mazurkiewicz trace and a controlled scheduler (loom/shuttle) would have no scheduling point to branch on; scan of /repo/src for static mut/thread_local/lazy_static/OnceCell/OnceLock/Atomic/Mutex/RwLock/RandomState/DefaultHasher/unsafe outside hook items found: {}", if scan.is_empty() { "nothing".to_string() } else { scan.join("; ") }),
         "call-level interleavings of builders on one thread expose any instance-crossing (global or thread-local) state".into(),
@@ -376,6 +395,19 @@ pub fn plan(tier: Tier) -> Plan {
                 do_fronts(&Pat::Lin3.apply(&keys), &[(1, 1), (2, 2)], st, rep);
                 do_fronts(&Pat::Zero.apply(&keys), &[(2, 2)], st, rep);
             }
+        }));
+    }
+    // inputs large enough to put the DEFAULT cache under pressure (evictions
+    // decide the bytes there): every front end must still agree
+    for (name, take, set) in [("words-10000", 10_000usize, true), ("words-10000", 10_000, false), ("words-10000", 3_000, false), ("words-10000", 400, true), ("wiki-urls-10000", 10_000, true), ("wiki-urls-10000", 1_500, false)] {
+        p.units.push(unit("corpora-all-front-ends-byte-identical-(default-cache-under-pressure)", format!("fronts corpus {} first {} set={}", name, take, set), move |st, rep| {
+            let kvs = match corpus_sample(name, take, set) {
+                Ok(k) => k,
+                Err(e) => { eprintln!("{}", e); std::process::exit(2) }
+            };
+            st.count("corpus_front_end_comparisons", 1);
+            st.nontrivial += 1;
+            do_fronts_case(&kvs, &[], json!({"kind": "fronts-corpus", "name": name, "take": take, "set": set}), st, rep);
         }));
     }
     // interleavings
@@ -450,6 +482,6 @@ pub fn plan(tier: Tier) -> Plan {
         }
         st.sample(|| json!({"scope_digest": format!("{:016x}", here), "threads": 8, "processes": 4}));
     }));
-    p.must_be_nonzero = vec!["interleavings".into(), "thread_digests".into(), "process_digests".into()];
+    p.must_be_nonzero = vec!["corpus_front_end_comparisons".into(), "interleavings".into(), "thread_digests".into(), "process_digests".into()];
     p
 }
